@@ -1198,7 +1198,12 @@ fn unify_case(drv: &mut Driver, seed: u64, index: u64, rep: &mut Report) {
                 let fs: Vec<String> = (0..nf).map(|f| format!("({f} {})", ty(p, vars, ndefs, depth + 1))).collect();
                 format!("(rec {})", fs.join(" "))
             }
-            15 if depth < 2 => format!("(fn ({}) {})", ty(p, vars, ndefs, depth + 1), ty(p, vars, ndefs, depth + 1)),
+            15 if depth < 2 => {
+                // function types with 0..3 parameters: the `Function` arm of unify_inner zips the parameter lists
+                let np = p.below(4);
+                let ps: Vec<String> = (0..np).map(|_| ty(p, vars, ndefs, depth + 1)).collect();
+                format!("(fn ({}) {})", ps.join(" "), ty(p, vars, ndefs, depth + 1))
+            }
             _ => format!("(n {})", [2u64, 6, 8, 10][p.below(4) as usize]),
         }
     }
